@@ -562,6 +562,53 @@ fn j2oas_integer(
     number: &Option<Box<schemars::schema::NumberValidation>>,
     enum_values: &Option<Vec<serde_json::value::Value>>,
 ) -> openapiv3::SchemaKind {
+    // openapiv3's integer type holds its limits as i64.  A limit that is not
+    // an integer in that range (say, one near u64::MAX) would be silently
+    // changed by the conversion, so such schemas are expressed with the same
+    // keywords through the generic schema type, which holds them as f64 just
+    // as schemars does.
+    if let Some(number) = number {
+        let fits_i64 = |f: &f64| {
+            f.fract() == 0.0
+                && *f >= -9223372036854775808.0
+                && *f < 9223372036854775808.0
+        };
+        let limits = [
+            number.multiple_of,
+            number.minimum,
+            number.exclusive_minimum,
+            number.maximum,
+            number.exclusive_maximum,
+        ];
+        if !limits.iter().flatten().all(fits_i64) {
+            let (minimum, exclusive_minimum) =
+                match (number.minimum, number.exclusive_minimum) {
+                    (None, None) => (None, None),
+                    (Some(f), None) => (Some(f), None),
+                    (None, Some(f)) => (Some(f), Some(true)),
+                    _ => panic!("invalid"),
+                };
+            let (maximum, exclusive_maximum) =
+                match (number.maximum, number.exclusive_maximum) {
+                    (None, None) => (None, None),
+                    (Some(f), None) => (Some(f), None),
+                    (None, Some(f)) => (Some(f), Some(true)),
+                    _ => panic!("invalid"),
+                };
+            return openapiv3::SchemaKind::Any(openapiv3::AnySchema {
+                typ: Some("integer".to_string()),
+                format: format.clone(),
+                multiple_of: number.multiple_of,
+                minimum,
+                exclusive_minimum,
+                maximum,
+                exclusive_maximum,
+                enumeration: enum_values.clone().unwrap_or_default(),
+                ..Default::default()
+            });
+        }
+    }
+
     let format = match format.as_ref().map(|s| s.as_str()) {
         None => openapiv3::VariantOrUnknownOrEmpty::Empty,
         Some("int32") => openapiv3::VariantOrUnknownOrEmpty::Item(
